@@ -449,4 +449,233 @@ theorem C38_bad_prefix (S : Store) (b : Bool) (pfx : Str) (q : Nat) (a : Str)
     (hp : prefixOf pfx = none) : getKeysPaged S b pfx q a = none :=
   getKeysPaged_bad S b pfx hp q a
 
+/-- a single page with an arbitrary `afterKey` string (any text: upper case, no `0x`, not hex):
+    the first `q` matching keys whose `0x…` text is greater than `afterKey` as a string -/
+theorem C38_page_partial {t : Trie} {es : Entries} (h : Rep t es) (pfx : Str) (p : Bytes)
+    (hp : prefixOf pfx = some p) (hreg : trimRegion p es = false) (q : Nat) (after : Str) :
+    getKeysPaged (trieStore t) true pfx q after =
+      some ((((OMap.keysWithPrefix p es).map fKey).filter (fun s => sgt s after)).take q) := by
+  rw [getKeysPaged_eq _ pfx p hp]
+  simp only [trieStore, C02.C02_keysWithPrefix_partial h p hreg, pageOf]
+
+/-! ### runs of the harness language -/
+
+/-- invariant of every state a run reaches: the trie represents the map, and the map has at most
+    as many keys as `put`s were made (the bound of calls the harness loop uses) -/
+structure Good (s : St) : Prop where
+  rep : Rep s.t s.es
+  len : s.es.length ≤ s.puts
+
+theorem good_init : Good St.init := ⟨Rep.empty, Nat.le_refl _⟩
+
+theorem length_upsert_le (k v : Bytes) (es : Entries) :
+    (OMap.upsert k v es).length ≤ es.length + 1 := by
+  induction es with
+  | nil => simp [OMap.upsert]
+  | cons e r ih =>
+    simp only [OMap.upsert]
+    split
+    · simp
+    · split
+      · simp
+      · simp only [List.length_cons]; omega
+
+theorem good_apply {s : St} (h : Good s) (op : Op) : Good (s.apply op) := by
+  cases op with
+  | put k v =>
+    exact ⟨h.rep.put k v, by
+      have := length_upsert_le k v s.es
+      have := h.len
+      simp only [St.apply]; omega⟩
+  | del k =>
+    simp only [St.apply]
+    split
+    · rename_i hk
+      obtain ⟨v, hv⟩ := Option.isSome_iff_exists.mp hk
+      refine ⟨C02.C02_delete_present h.rep k v hv, ?_⟩
+      have : (OMap.erase k s.es).length ≤ s.es.length := List.length_filter_le _ _
+      have := h.len
+      show (OMap.erase k s.es).length ≤ s.puts
+      omega
+    · exact h
+  | page _ _ _ => exact h
+  | loop _ _ => exact h
+  | pairs _ => exact h
+  | bad => exact h
+
+/-- the state after a run -/
+def finalSt (ops : List Op) : St := ops.foldl St.apply St.init
+
+theorem good_foldl (ops : List Op) : ∀ s, Good s → Good (ops.foldl St.apply s) := by
+  induction ops with
+  | nil => intro s h; exact h
+  | cons op r ih => intro s h; exact ih _ (good_apply h op)
+
+/-- every state the harness language can build is represented exactly (for all op lists) -/
+theorem C38_state_rep (ops : List Op) : Good (finalSt ops) := good_foldl ops _ good_init
+
+theorem length_keysWithPrefix_le (p : Bytes) (es : Entries) :
+    (OMap.keysWithPrefix p es).length ≤ es.length := by
+  simp only [OMap.keysWithPrefix, List.length_map]; exact List.length_filter_le _ _
+
+/-- **C38_pages_partition** for the run itself: in every reachable state the bound of calls the
+    harness (and the driver) uses, `puts + 2`, is enough — the loop never reports `nonterm` — and
+    the pages are the chunks of the matching keys. -/
+theorem C38_pages_run_partial (ops : List Op) (pfx : Str) (p : Bytes) (hp : prefixOf pfx = some p)
+    (hreg : trimRegion p (finalSt ops).es = false) (q : Nat) (hq : 1 ≤ q) :
+    paginate (getKeysPaged (trieStore (finalSt ops).t) true pfx q) ((finalSt ops).puts + 2) [] =
+      (chunk q ((OMap.keysWithPrefix p (finalSt ops).es).map fKey), LoopEnd.done) := by
+  have g := C38_state_rep ops
+  apply C38_pages_partition_partial g.rep pfx p hp hreg q hq
+  have := length_keysWithPrefix_le p (finalSt ops).es
+  have := g.len
+  omega
+
+/-- the op lies outside of both known-finding regions (this is `kfTag addr s op = ""`) -/
+def opSafe (addr : Addr) (s : St) : Op → Bool
+  | .page p _ _ =>
+    match prefixOf p with
+    | none => true
+    | some hp => addr != .blk && !trimRegion hp s.es
+  | .loop p _ =>
+    match prefixOf p with
+    | none => true
+    | some hp => addr != .blk && !trimRegion hp s.es
+  | .pairs (some p) =>
+    match hexToBytes? p with
+    | none => true
+    | some hp => !trimRegion hp s.es
+  | _ => true
+
+theorem opSafe_iff_no_tag (addr : Addr) (s : St) (op : Op) :
+    opSafe addr s op = true ↔ kfTag addr s op = "" := by
+  cases op with
+  | page p q a =>
+    simp only [opSafe, kfTag]
+    cases prefixOf p with
+    | none => simp
+    | some hp => cases addr <;> cases ht : trimRegion hp s.es <;> simp [ht] <;> decide
+  | loop p q =>
+    simp only [opSafe, kfTag]
+    cases prefixOf p with
+    | none => simp
+    | some hp => cases addr <;> cases ht : trimRegion hp s.es <;> simp [ht] <;> decide
+  | pairs p =>
+    cases p with
+    | none => simp [opSafe, kfTag]
+    | some p =>
+      simp only [opSafe, kfTag]
+      cases hexToBytes? p with
+      | none => simp
+      | some hp => cases ht : trimRegion hp s.es <;> simp [ht]
+  | put _ _ => simp [opSafe, kfTag]
+  | del _ => simp [opSafe, kfTag]
+  | bad => simp [opSafe, kfTag]
+
+theorem paged_agree {s : St} (h : Good s) (b : Bool) (pfx : Str)
+    (hsafe : ∀ hp, prefixOf pfx = some hp → trimRegion hp s.es = false) (q : Nat) :
+    getKeysPaged (trieStore s.t) b pfx q = getKeysPaged (mapStore s.es) b pfx q := by
+  funext a
+  cases hp : prefixOf pfx with
+  | none => rw [getKeysPaged_bad _ _ _ hp, getKeysPaged_bad _ _ _ hp]
+  | some p =>
+    cases b with
+    | false => rw [getKeysPaged_unknown_root, getKeysPaged_unknown_root]
+    | true =>
+      rw [getKeysPaged_eq _ pfx p hp, getKeysPaged_eq _ pfx p hp]
+      simp only [trieStore, mapStore, C02.C02_keysWithPrefix_partial h.rep p (hsafe p hp)]
+
+theorem pairs_agree {s : St} (h : Good s) (b : Bool) (pfx : Option Str)
+    (hsafe : ∀ p hp, pfx = some p → hexToBytes? p = some hp → trimRegion hp s.es = false) :
+    getPairs (trieStore s.t) b pfx = getPairs (mapStore s.es) b pfx := by
+  cases b with
+  | false => simp [getPairs]
+  | true =>
+    by_cases hall : pfx = none ∨ pfx = some [] ∨ pfx = some ['0', 'x']
+    · rw [getPairs_all h.rep pfx hall]
+      simp only [getPairs, Bool.not_true, Bool.false_eq_true, if_false, hall, if_true, mapStore,
+        List.map_map, specPairs_nil]
+      have : ((fun e : Bytes × Option Bytes => (fKey e.1, optHex e.2)) ∘
+          fun e : Bytes × Bytes => (e.1, some e.2)) = fun e => (fKey e.1, fKey e.2) := by
+        funext e; rfl
+      rw [this, sortPairs_sorted h.rep.sorted]
+    · cases pfx with
+      | none => simp at hall
+      | some p =>
+        have hne : ¬ (p = [] ∨ p = ['0', 'x']) := by simpa using hall
+        cases hp : hexToBytes? p with
+        | none => simp [getPairs, hall, hp, hne]
+        | some hpb =>
+          rw [getPairs_prefix h.rep p hpb hp hne (hsafe p hpb rfl hp)]
+          simp only [getPairs, Bool.not_true, Bool.false_eq_true, if_false, hall, Option.getD_some,
+            hp, mapStore, OMap.keysWithPrefix, List.map_map, specPairs]
+          congr 1
+          apply List.map_congr_left
+          intro e he
+          have hmem : e ∈ s.es := (List.mem_filter.mp he).1
+          simp only [Function.comp, OMap.get_of_mem_sorted h.rep.sorted hmem, optHex]
+
+/-- one op: outside the regions the Go model gives the observable of the specification -/
+theorem step_refines {s : St} (h : Good s) (addr : Addr) (op : Op)
+    (hs : opSafe addr s op = true) : stepModel addr s op = stepSpec addr s op := by
+  cases op with
+  | put _ _ => rfl
+  | del _ => rfl
+  | bad => rfl
+  | page p q a =>
+    simp only [opSafe] at hs
+    simp only [stepModel, stepSpec, observe]
+    cases hp : prefixOf p with
+    | none => rw [getKeysPaged_bad _ _ _ hp, getKeysPaged_bad _ _ _ hp]
+    | some hpb =>
+      simp only [hp, Bool.and_eq_true, Bool.not_eq_true'] at hs
+      rw [hs.1, paged_agree h true p (fun x hx => by rw [hp] at hx; cases hx; exact hs.2)]
+  | loop p q =>
+    simp only [opSafe] at hs
+    simp only [stepModel, stepSpec, observe]
+    cases hp : prefixOf p with
+    | none =>
+      have e : ∀ (S : Store) (b : Bool), getKeysPaged S b p q = fun _ => none := by
+        intro S b; funext a; exact getKeysPaged_bad _ _ _ hp _ _
+      rw [e, e]
+    | some hpb =>
+      simp only [hp, Bool.and_eq_true, Bool.not_eq_true'] at hs
+      rw [hs.1, paged_agree h true p (fun x hx => by rw [hp] at hx; cases hx; exact hs.2)]
+  | pairs p =>
+    simp only [stepModel, stepSpec, observe]
+    rw [pairs_agree h _ p]
+    intro p' hp' e he
+    subst e
+    simp only [opSafe, he, Bool.not_eq_true'] at hs
+    exact hs
+
+/-- no op of the run lies in a known-finding region -/
+def safeFrom (addr : Addr) (s : St) : List Op → Bool
+  | [] => true
+  | op :: r => opSafe addr s op && safeFrom addr (s.apply op) r
+
+theorem refines_from (addr : Addr) (ops : List Op) : ∀ s, Good s → safeFrom addr s ops = true →
+    runFrom (stepModel addr) s ops = runFrom (stepSpec addr) s ops := by
+  induction ops with
+  | nil => intro s _ _; rfl
+  | cons op r ih =>
+    intro s h hs
+    simp only [safeFrom, Bool.and_eq_true] at hs
+    simp only [runFrom, step_refines h addr op hs.1, ih _ (good_apply h op) hs.2]
+
+/-- FULL STATEMENT (false for the code): `∀ addr ops, runFrom (stepModel addr) St.init ops =
+    runFrom (stepSpec addr) St.init ops`.  Every run of put / del / page / loop / pairs, with the
+    block field empty, a state root or a block hash, all of whose ops stay outside the regions of
+    the two known findings gives exactly the observables of the specification. -/
+theorem C38_refines_partial (addr : Addr) (ops : List Op) (hs : safeFrom addr St.init ops = true) :
+    runFrom (stepModel addr) St.init ops = runFrom (stepSpec addr) St.init ops :=
+  refines_from addr ops _ good_init hs
+
+/-- the hypothesis is not vacuous: a run with keys that are prefixes of keys, a prefix ending in a
+    zero nibble that is harmless in this state, overwrites and a delete is safe -/
+example : safeFrom Addr.nil St.init
+    [.put [0x10] [1], .put [0x10, 0x01] [2], .put [] [3], .put [0x20] [4],
+     .loop ['0', 'x', '1', '0'] 1, .page ['0', 'x'] 2 ['0', 'x', '1', '0'], .del [0x10],
+     .pairs (some ['0', 'x', '1', '0']), .pairs none, .loop [] 3] = true := by decide
+
 end Gossamer.C38
